@@ -773,6 +773,42 @@ def rule_wrapped_forger(check, rule):
         else:
             check.violation(rule, site_of(fi, fi.node), '_Wrapped forges its signature as %s' % show(v)[:160], key=key,
                             witness='wrapper_decorator(1)(w)(f): one positional of f is supplied by w')
+    # specifiers.forwards(wrapper, wrapped, ...): the wrapper's own *plain* signature (its forged one is what is being computed) and the
+    # wrapped callable's *full* signature -- forged and, failing that, discovered: cutting discovery off (`auto=False`) advertises the
+    # bare (*args, **kwargs) of a wrapped function that itself forwards
+    sf = repo.func('specifiers:forwards', required=False)
+    if sf is not None:
+        check.analysed(sf)
+        it3 = Interp(repo, Policy())
+        key = 'specifiers:forwards|operands'
+        for p in it3.run(sf):
+            if p.status != 'return':
+                continue
+            v = p.value
+            pos_ = sf.params()[0]
+            msg = None
+            if not (v[0] == 'C' and str(v[1]).endswith('_signatures:forwards') and len(v[2]) >= 2):
+                msg = 'specifiers.forwards returns %s' % show(v)[:80]
+            else:
+                a0, a1 = v[2][0], v[2][1]
+                if not (a0[0] == 'C' and str(a0[1]).endswith('_signatures:signature') and a0[2] == (('P', pos_[0]),)):
+                    msg = 'the outer operand is %s, expected the plain signature of the wrapper' % show(a0)[:60]
+                elif not (a1[0] == 'C' and str(a1[1]).endswith(':forged_signature') and a1[2][:1] == (('P', pos_[1]),)):
+                    msg = 'the inner operand is %s, expected the full signature of the wrapped callable' % show(a1)[:60]
+                else:
+                    kws_ = dict(a1[3])
+                    extra_pos = a1[2][1:]
+                    if ('auto' in kws_ and kws_['auto'] != K(True)) or (extra_pos and extra_pos[0] != K(True)):
+                        msg = 'the wrapped callable\'s signature is retrieved with auto=%s: what it forwards itself is not discovered' \
+                              % show(kws_.get('auto', extra_pos[0] if extra_pos else None))
+                    elif not any(x[0] == 'STAR' for x in v[2][2:]) or not any(k is None for k, _v in v[3]):
+                        msg = 'the positional / named arguments of the declaration are not handed on'
+            if msg:
+                check.violation(rule, site_of(sf, sf.node), 'specifiers.forwards: %s' % msg, key=key,
+                                witness='wrapper_decorator over def inner(*a, **k): return target(*a, **k) must advertise target\'s parameters')
+            else:
+                check.holds(rule, site_of(sf, sf.node), 'specifiers.forwards(plain signature of the wrapper, full signature of the wrapped, *args, **kwargs)',
+                            key=key)
     # _WrapperDecorator stores what wrapper_decorator was given
     fi = repo.func('wrappers:Combination.get_signature')
     check.analysed(fi)
